@@ -118,7 +118,8 @@ def _render(atoms, dih_entries, direction, counts, opls, use_define, bond_rev):
     bond_lines = ["%s %s 1 0.47 1250" % (bt(b01[0]), bt(b01[1]))]
     ang = (atoms[2], atoms[1], atoms[0]) if bond_rev else (atoms[0], atoms[1], atoms[2])
     angle_lines = ["%s 2 120 %s" % (" ".join(bt(x) for x in ang), "ang_k" if use_define else "45")]
-    defines = "#define ang_k 77.0\n" if use_define else ""
+    # a macro may be defined more than once: the latest definition before its use counts (as for the GROMACS preprocessor)
+    defines = {False: "", True: "#define ang_k 77.0\n", "redefined": "#define ang_k 55.5\n#define  ang_k\t77.0\n"}[use_define]
     atomsA = "\n".join("%d %s 1 RES a%d %d 0.0" % (i + 1, atoms[i], i + 1, i + 1) for i in range(4))
     order = "1 2 3 4" if direction == 0 else "4 3 2 1"
     mols = "\n".join("%s %d" % (n, c) for n, c in counts)
@@ -222,7 +223,7 @@ def bonded(sx, B):
 @condition("C09.bonded_misc",
            anchors=["polyply.src.topology:Topology.gen_bonded_interactions", "polyply.src.topology:Topology.replace_defines",
                     "polyply.src.topology:replace_defined_interaction"],
-           rejects=(), selector_only=True, must_cover=["resolved", "opls", "define"],
+           rejects=(), selector_only=True, must_cover=["resolved", "opls", "define", "macro redefined"],
            outside=["interaction kinds other than bonds, angles, dihedrals"],
            bounds={"quick": dict(masks=[0, 1, 9, 14], nterm_max=2, layouts=LAYOUTS[:2]),
                    "thorough": dict(masks=list(range(16)), nterm_max=3, layouts=LAYOUTS)},
@@ -233,7 +234,9 @@ def bonded_misc(sx, B):
     atoms = ("A", "B", "C", "D")
     direction = sx.sel("direction", [0, 1])
     opls = sx.sel("opls", [False, True])
-    use_define = sx.sel("define", [False, True])
+    use_define = sx.sel("define", [False, True, "redefined"])
+    if use_define == "redefined":
+        sx.cover("macro redefined")
     bond_rev = sx.sel("types_reversed", [False, True])
     ents = [_entry(sx, 0, atoms, B["masks"], B["nterm_max"])]
     counts = sx.sel("molecules", B["layouts"])
